@@ -275,17 +275,21 @@ class ModelBackend(Backend):
     def current_now(self):
         return self.world.now
 
-    def set_zone(self, std_off, dst_off, dst_now, dst_file, t_file, file_repeated=False):
+    def set_zone(self, std_off, dst_off, dst_now, dst_file, t_file, file_repeated=False, extra=()):
         """zone with standard / daylight offset; isdst(t) = dst_file for the file instant, dst_now for every other instant;
-        file_repeated: the file instant lies in the second occurrence of the hour repeated at the end of daylight saving"""
+        file_repeated: the file instant lies in the second occurrence of the hour repeated at the end of daylight saving;
+        extra: further (instant, dst flag) pairs"""
         import z3
         from .pse import SymBool, SymInt, _z, _zb
         W = self.W
 
         def isdst(t):
-            if isinstance(dst_now, bool) and isinstance(dst_file, bool) and not isinstance(t, SymInt) and not isinstance(t_file, SymInt):
+            if isinstance(dst_now, bool) and isinstance(dst_file, bool) and not isinstance(t, SymInt) and not isinstance(t_file, SymInt) and not extra:
                 return dst_file if t == t_file else dst_now
-            return SymBool(z3.If(_z(t) == _z(t_file), _zb(dst_file), _zb(dst_now)))
+            r = z3.If(_z(t) == _z(t_file), _zb(dst_file), _zb(dst_now))
+            for (te, fe) in extra:
+                r = z3.If(_z(t) == _z(te), _zb(fe), r)
+            return SymBool(r)
 
         def second(t):
             if file_repeated is False:
@@ -299,6 +303,10 @@ class ModelBackend(Backend):
     def now_window(self):
         t = getattr(self, "last_run_now", self.world.now)
         return (t, t)
+
+    def use_fixed_offset(self, seconds):
+        """a time zone without daylight saving, `seconds` east of UTC"""
+        self.world.zone = self.W.Zone(seconds, seconds)
 
     @property
     def tick(self):
@@ -828,11 +836,19 @@ class RealBackend(Backend):
         import time
         return self.now if self.clock == "freeze" else int(time.time())
 
+    def use_fixed_offset(self, seconds):
+        import time
+        sign = "-" if seconds > 0 else ("+" if seconds < 0 else "")
+        a = abs(seconds)
+        self.tz = "VST%s%d:%02d" % (sign, a // 3600, (a % 3600) // 60) if seconds else "UTC"
+        os.environ["TZ"] = self.tz
+        time.tzset()
+
     def now_window(self):
         """(earliest, latest) instant 'now' may denote for the last command (real clock: the command's run time)"""
         return self.last_window if self.clock != "freeze" else (self.now - self.tick, self.now - self.tick)
 
-    def set_zone(self, std_off, dst_off, dst_now, dst_file, t_file, file_repeated=False):
+    def set_zone(self, std_off, dst_off, dst_now, dst_file, t_file, file_repeated=False, extra=()):
         """real clock + a POSIX TZ rule under which now / the file instant have the requested DST flags"""
         import time, datetime as dt
         self.clock = "real"
